@@ -53,6 +53,16 @@ impl DBM {
             None => !(self.trackers.contains_key(uuid) && self.appts.contains_key(uuid)),
         },
     { unimplemented!() }
+    // SELECT t.*, a.user_id FROM trackers t INNER JOIN appointments a ON t.UUID=a.UUID [WHERE a.locator=?]
+//@ transcribes teos/src/dbm.rs :: impl DBM :: fn load_trackers :: sha=6bcfb5401ee4b300
+    #[verifier::external_body]
+    pub fn load_trackers(&self, locator: Option<Locator>) -> (r: HashMap<UUID, TransactionTracker>)
+        ensures
+            forall|u: UUID| #[trigger] r@.contains_key(u) <==> self.trackers.contains_key(u) && self.appts.contains_key(u)
+                && (locator matches Some(l) ==> self.appts[u].locator == l),
+            forall|u: UUID| #[trigger] r@.contains_key(u) ==> r@[u].dispute_tx == self.trackers[u].dispute_tx && r@[u].penalty_tx == self.trackers[u].penalty_tx
+                && r@[u].status == row_status(self.trackers[u]) && r@[u].user_id == self.appts[u].user_id,
+    { unimplemented!() }
 //@ transcribes teos/src/dbm.rs :: impl DBM :: fn tracker_exists :: sha=eaa7a0521582ca13
     #[verifier::external_body]
     pub fn tracker_exists(&self, uuid: UUID) -> (r: bool)
